@@ -17,11 +17,11 @@ inline double gdist(Rng& r, double a) {
 }
 
 template <class G, G Shared::*M> void add_geod(const std::string& pre, const std::string& cls) {
-  add(pre + ".inverse.all", cls, 2, true, [](const Shared* S, Rng& r, Res& o, int) {
+  add(pre + ".inverse.all", cls, 2, true, [](const Shared* S, Rng& r, Res& o, int pv) {
     const G& g = S->*M; Pair p = gpair(r); real s12, azi1, azi2, m12, M12, M21, S12;
     real a12 = g.Inverse(p.lat1, p.lon1, p.lat2, p.lon2, s12, azi1, azi2, m12, M12, M21, S12);
     o.d(a12); o.d(s12); o.d(azi1); o.d(azi2); o.d(m12); o.d(M12); o.d(M21); o.d(S12); });
-  add(pre + ".inverse.overloads", cls, 1, true, [](const Shared* S, Rng& r, Res& o, int) {
+  add(pre + ".inverse.overloads", cls, 1, true, [](const Shared* S, Rng& r, Res& o, int pv) {
     const G& g = S->*M; Pair p = gpair(r); real s12, azi1, azi2, m12, M12, M21;
     o.d(g.Inverse(p.lat1, p.lon1, p.lat2, p.lon2, s12)); o.d(s12);
     o.d(g.Inverse(p.lat1, p.lon1, p.lat2, p.lon2, azi1, azi2)); o.d(azi1); o.d(azi2);
@@ -29,17 +29,17 @@ template <class G, G Shared::*M> void add_geod(const std::string& pre, const std
     o.d(g.Inverse(p.lat1, p.lon1, p.lat2, p.lon2, s12, azi1, azi2, m12)); o.d(m12);
     o.d(g.Inverse(p.lat1, p.lon1, p.lat2, p.lon2, s12, azi1, azi2, M12, M21)); o.d(M12); o.d(M21);
     o.d(g.Inverse(p.lat1, p.lon1, p.lat2, p.lon2, s12, azi1, azi2, m12, M12, M21)); });
-  add(pre + ".geninverse.mask", cls, 1, true, [](const Shared* S, Rng& r, Res& o, int) {
+  add(pre + ".geninverse.mask", cls, 1, true, [](const Shared* S, Rng& r, Res& o, int pv) {
     const G& g = S->*M; Pair p = gpair(r); unsigned m = gmask(r);
     real s12 = -1, azi1 = -2, azi2 = -3, m12 = -4, M12 = -5, M21 = -6, S12 = -7;
     o.d(g.GenInverse(p.lat1, p.lon1, p.lat2, p.lon2, m, s12, azi1, azi2, m12, M12, M21, S12));
     o.d(s12); o.d(azi1); o.d(azi2); o.d(m12); o.d(M12); o.d(M21); o.d(S12); });
-  add(pre + ".direct.all", cls, 2, true, [](const Shared* S, Rng& r, Res& o, int) {
+  add(pre + ".direct.all", cls, 2, true, [](const Shared* S, Rng& r, Res& o, int pv) {
     const G& g = S->*M; real lat1 = glat(r), lon1 = glon(r), azi1 = gazi(r), s12 = gdist(r, g.EquatorialRadius());
     real lat2, lon2, azi2, m12, M12, M21, S12;
     o.d(g.Direct(lat1, lon1, azi1, s12, lat2, lon2, azi2, m12, M12, M21, S12));
     o.d(lat2); o.d(lon2); o.d(azi2); o.d(m12); o.d(M12); o.d(M21); o.d(S12); });
-  add(pre + ".direct.overloads", cls, 1, true, [](const Shared* S, Rng& r, Res& o, int) {
+  add(pre + ".direct.overloads", cls, 1, true, [](const Shared* S, Rng& r, Res& o, int pv) {
     const G& g = S->*M; real lat1 = glat(r), lon1 = glon(r), azi1 = gazi(r), s12 = gdist(r, g.EquatorialRadius());
     real lat2, lon2, azi2, m12, M12, M21;
     o.d(g.Direct(lat1, lon1, azi1, s12, lat2, lon2)); o.d(lat2); o.d(lon2);
@@ -47,27 +47,27 @@ template <class G, G Shared::*M> void add_geod(const std::string& pre, const std
     o.d(g.Direct(lat1, lon1, azi1, s12, lat2, lon2, azi2, m12)); o.d(m12);
     o.d(g.Direct(lat1, lon1, azi1, s12, lat2, lon2, azi2, M12, M21)); o.d(M12); o.d(M21);
     o.d(g.Direct(lat1, lon1, azi1, s12, lat2, lon2, azi2, m12, M12, M21)); });
-  add(pre + ".arcdirect.all", cls, 1, true, [](const Shared* S, Rng& r, Res& o, int) {
+  add(pre + ".arcdirect.all", cls, 1, true, [](const Shared* S, Rng& r, Res& o, int pv) {
     const G& g = S->*M; real lat1 = glat(r), lon1 = glon(r), azi1 = gazi(r), a12 = r.coin(0.2) ? pk(r, {0.0, 90.0, 180.0, 360.0, -90.0}) : r.uniform(-720, 720);
     real lat2, lon2, azi2, s12, m12, M12, M21, S12;
     g.ArcDirect(lat1, lon1, azi1, a12, lat2, lon2, azi2, s12, m12, M12, M21, S12);
     o.d(lat2); o.d(lon2); o.d(azi2); o.d(s12); o.d(m12); o.d(M12); o.d(M21); o.d(S12);
     g.ArcDirect(lat1, lon1, azi1, a12, lat2, lon2); o.d(lat2); o.d(lon2);
     g.ArcDirect(lat1, lon1, azi1, a12, lat2, lon2, azi2, s12); o.d(s12); });
-  add(pre + ".gendirect.mask", cls, 1, true, [](const Shared* S, Rng& r, Res& o, int) {
+  add(pre + ".gendirect.mask", cls, 1, true, [](const Shared* S, Rng& r, Res& o, int pv) {
     const G& g = S->*M; real lat1 = glat(r), lon1 = glon(r), azi1 = gazi(r); bool arc = r.coin();
     real s = arc ? r.uniform(-720, 720) : gdist(r, g.EquatorialRadius()); unsigned m = gmask(r);
     real lat2 = -1, lon2 = -2, azi2 = -3, s12 = -4, m12 = -5, M12 = -6, M21 = -7, S12 = -8;
     o.d(g.GenDirect(lat1, lon1, azi1, arc, s, m, lat2, lon2, azi2, s12, m12, M12, M21, S12));
     o.d(lat2); o.d(lon2); o.d(azi2); o.d(s12); o.d(m12); o.d(M12); o.d(M21); o.d(S12); });
-  add(pre + ".line.position", cls, 1, true, [](const Shared* S, Rng& r, Res& o, int) {
+  add(pre + ".line.position", cls, 1, true, [](const Shared* S, Rng& r, Res& o, int pv) {
     const G& g = S->*M; real lat1 = glat(r), lon1 = glon(r), azi1 = gazi(r);
     auto l = r.coin() ? g.Line(lat1, lon1, azi1) : g.Line(lat1, lon1, azi1, gmask(r) | Geodesic::DISTANCE_IN);
     real lat2 = -1, lon2 = -2, azi2 = -3, m12 = -5, M12 = -6, M21 = -7, S12 = -8;
     for (int k = 0; k < 3; ++k) {
       o.d(l.Position(gdist(r, g.EquatorialRadius()), lat2, lon2, azi2, m12, M12, M21, S12));
       o.d(lat2); o.d(lon2); o.d(azi2); o.d(m12); o.d(M12); o.d(M21); o.d(S12); } });
-  add(pre + ".inverseline", cls, 1, true, [](const Shared* S, Rng& r, Res& o, int) {
+  add(pre + ".inverseline", cls, 1, true, [](const Shared* S, Rng& r, Res& o, int pv) {
     const G& g = S->*M; Pair p = gpair(r);
     auto l = r.coin() ? g.InverseLine(p.lat1, p.lon1, p.lat2, p.lon2) : g.InverseLine(p.lat1, p.lon1, p.lat2, p.lon2, gmask(r) | Geodesic::DISTANCE_IN);
     real lat2 = -1, lon2 = -2, azi2 = -3, m12 = -5, M12 = -6, M21 = -7, S12 = -8;
@@ -75,7 +75,7 @@ template <class G, G Shared::*M> void add_geod(const std::string& pre, const std
     o.d(l.Position(l.Distance() * r.uniform(-0.5, 1.5), lat2, lon2, azi2, m12, M12, M21, S12));
     o.d(lat2); o.d(lon2); o.d(azi2); o.d(m12); o.d(M12); o.d(M21); o.d(S12);
     l.ArcPosition(l.Arc(), lat2, lon2); o.d(lat2); o.d(lon2); });
-  add(pre + ".directline", cls, 1, true, [](const Shared* S, Rng& r, Res& o, int) {
+  add(pre + ".directline", cls, 1, true, [](const Shared* S, Rng& r, Res& o, int pv) {
     const G& g = S->*M; real lat1 = glat(r), lon1 = glon(r), azi1 = gazi(r);
     int k = r.range(0, 2);
     auto l = k == 0 ? g.DirectLine(lat1, lon1, azi1, gdist(r, g.EquatorialRadius()))
@@ -84,76 +84,76 @@ template <class G, G Shared::*M> void add_geod(const std::string& pre, const std
     real lat2 = -1, lon2 = -2, azi2 = -3, s12 = -4, m12 = -5, M12 = -6, M21 = -7, S12 = -8;
     o.d(l.GenPosition(true, l.Arc() * r.uniform(0, 1), Geodesic::ALL, lat2, lon2, azi2, s12, m12, M12, M21, S12));
     o.d(lat2); o.d(lon2); o.d(azi2); o.d(s12); o.d(m12); o.d(M12); o.d(M21); o.d(S12); });
-  add(pre + ".accessors", cls, 0.3, true, [](const Shared* S, Rng&, Res& o, int) {
+  add(pre + ".accessors", cls, 0.3, true, [](const Shared* S, Rng&, Res& o, int pv) {
     const G& g = S->*M; o.d(g.EquatorialRadius()); o.d(g.Flattening()); o.d(g.EllipsoidArea()); });
 }
 
 template <class L, L Shared::*M> void add_line(const std::string& pre, const std::string& cls) {
-  add(pre + ".position.all", cls, 2, true, [](const Shared* S, Rng& r, Res& o, int) {
+  add(pre + ".position.all", cls, 2, true, [](const Shared* S, Rng& r, Res& o, int pv) {
     const L& l = S->*M; real lat2, lon2, azi2, m12, M12, M21, S12;
     o.d(l.Position(gdist(r, l.EquatorialRadius()), lat2, lon2, azi2, m12, M12, M21, S12));
     o.d(lat2); o.d(lon2); o.d(azi2); o.d(m12); o.d(M12); o.d(M21); o.d(S12); });
-  add(pre + ".position.overloads", cls, 1, true, [](const Shared* S, Rng& r, Res& o, int) {
+  add(pre + ".position.overloads", cls, 1, true, [](const Shared* S, Rng& r, Res& o, int pv) {
     const L& l = S->*M; real s = gdist(r, l.EquatorialRadius()), lat2, lon2, azi2, m12, M12, M21;
     o.d(l.Position(s, lat2, lon2)); o.d(lat2); o.d(lon2);
     o.d(l.Position(s, lat2, lon2, azi2)); o.d(azi2);
     o.d(l.Position(s, lat2, lon2, azi2, m12)); o.d(m12);
     o.d(l.Position(s, lat2, lon2, azi2, M12, M21)); o.d(M12); o.d(M21);
     o.d(l.Position(s, lat2, lon2, azi2, m12, M12, M21)); });
-  add(pre + ".arcposition.all", cls, 1, true, [](const Shared* S, Rng& r, Res& o, int) {
+  add(pre + ".arcposition.all", cls, 1, true, [](const Shared* S, Rng& r, Res& o, int pv) {
     const L& l = S->*M; real lat2, lon2, azi2, s12, m12, M12, M21, S12;
     l.ArcPosition(r.uniform(-720, 720), lat2, lon2, azi2, s12, m12, M12, M21, S12);
     o.d(lat2); o.d(lon2); o.d(azi2); o.d(s12); o.d(m12); o.d(M12); o.d(M21); o.d(S12); });
-  add(pre + ".genposition.mask", cls, 1, true, [](const Shared* S, Rng& r, Res& o, int) {
+  add(pre + ".genposition.mask", cls, 1, true, [](const Shared* S, Rng& r, Res& o, int pv) {
     const L& l = S->*M; bool arc = r.coin(); real s = arc ? r.uniform(-720, 720) : gdist(r, l.EquatorialRadius());
     real lat2 = -1, lon2 = -2, azi2 = -3, s12 = -4, m12 = -5, M12 = -6, M21 = -7, S12 = -8;
     o.d(l.GenPosition(arc, s, gmask(r), lat2, lon2, azi2, s12, m12, M12, M21, S12));
     o.d(lat2); o.d(lon2); o.d(azi2); o.d(s12); o.d(m12); o.d(M12); o.d(M21); o.d(S12); });
-  add(pre + ".accessors", cls, 0.3, true, [](const Shared* S, Rng&, Res& o, int) {
+  add(pre + ".accessors", cls, 0.3, true, [](const Shared* S, Rng&, Res& o, int pv) {
     const L& l = S->*M; o.d(l.Latitude()); o.d(l.Longitude()); o.d(l.Azimuth()); o.d(l.EquatorialAzimuth()); o.d(l.EquatorialArc());
     o.d(l.Distance()); o.d(l.Arc()); o.i(l.Capabilities()); o.b(l.Init());
     real s, c; l.Azimuth(s, c); o.d(s); o.d(c); l.EquatorialAzimuth(s, c); o.d(s); o.d(c); });
 }
 
 template <Rhumb Shared::*M> void add_rhumb(const std::string& pre, const std::string& cls) {
-  add(pre + ".inverse", cls, 3, true, [](const Shared* S, Rng& r, Res& o, int) {
+  add(pre + ".inverse", cls, 3, true, [](const Shared* S, Rng& r, Res& o, int pv) {
     const Rhumb& h = S->*M; Pair p = gpair(r); real s12, azi12, S12;
     h.Inverse(p.lat1, p.lon1, p.lat2, p.lon2, s12, azi12, S12); o.d(s12); o.d(azi12); o.d(S12);
     h.Inverse(p.lat1, p.lon1, p.lat2, p.lon2, s12, azi12); o.d(s12); o.d(azi12); });
-  add(pre + ".direct", cls, 3, true, [](const Shared* S, Rng& r, Res& o, int) {
+  add(pre + ".direct", cls, 3, true, [](const Shared* S, Rng& r, Res& o, int pv) {
     const Rhumb& h = S->*M; real lat1 = glat(r), lon1 = glon(r), azi = gazi(r), s12 = gdist(r, h.EquatorialRadius()) / 3, lat2, lon2, S12;
     h.Direct(lat1, lon1, azi, s12, lat2, lon2, S12); o.d(lat2); o.d(lon2); o.d(S12);
     h.Direct(lat1, lon1, azi, s12, lat2, lon2); o.d(lat2); o.d(lon2); });
-  add(pre + ".gen.mask", cls, 1, true, [](const Shared* S, Rng& r, Res& o, int) {
+  add(pre + ".gen.mask", cls, 1, true, [](const Shared* S, Rng& r, Res& o, int pv) {
     const Rhumb& h = S->*M; Pair p = gpair(r); unsigned m = gmask(r);
     real s12 = -1, azi12 = -2, S12 = -3, lat2 = -4, lon2 = -5;
     h.GenInverse(p.lat1, p.lon1, p.lat2, p.lon2, m, s12, azi12, S12); o.d(s12); o.d(azi12); o.d(S12);
     S12 = -3; h.GenDirect(p.lat1, p.lon1, gazi(r), gdist(r, h.EquatorialRadius()) / 3, m, lat2, lon2, S12); o.d(lat2); o.d(lon2); o.d(S12); });
-  add(pre + ".line.position", cls, 1, true, [](const Shared* S, Rng& r, Res& o, int) {
+  add(pre + ".line.position", cls, 1, true, [](const Shared* S, Rng& r, Res& o, int pv) {
     const Rhumb& h = S->*M; RhumbLine l = h.Line(glat(r), glon(r), gazi(r)); real lat2, lon2, S12;
     for (int k = 0; k < 3; ++k) { l.Position(gdist(r, h.EquatorialRadius()) / 3, lat2, lon2, S12); o.d(lat2); o.d(lon2); o.d(S12); } });
-  add(pre + ".accessors", cls, 0.3, true, [](const Shared* S, Rng&, Res& o, int) {
+  add(pre + ".accessors", cls, 0.3, true, [](const Shared* S, Rng&, Res& o, int pv) {
     const Rhumb& h = S->*M; o.d(h.EquatorialRadius()); o.d(h.Flattening()); o.d(h.EllipsoidArea()); });
 }
 template <RhumbLine Shared::*M> void add_rhumbline(const std::string& pre, const std::string& cls) {
-  add(pre + ".position", cls, 2, true, [](const Shared* S, Rng& r, Res& o, int) {
+  add(pre + ".position", cls, 2, true, [](const Shared* S, Rng& r, Res& o, int pv) {
     const RhumbLine& l = S->*M; real lat2, lon2, S12; real s = gdist(r, l.EquatorialRadius()) / 3;
     l.Position(s, lat2, lon2, S12); o.d(lat2); o.d(lon2); o.d(S12);
     l.Position(s, lat2, lon2); o.d(lat2); o.d(lon2); });
-  add(pre + ".genposition.mask", cls, 1, true, [](const Shared* S, Rng& r, Res& o, int) {
+  add(pre + ".genposition.mask", cls, 1, true, [](const Shared* S, Rng& r, Res& o, int pv) {
     const RhumbLine& l = S->*M; real lat2 = -1, lon2 = -2, S12 = -3;
     l.GenPosition(gdist(r, l.EquatorialRadius()) / 3, gmask(r), lat2, lon2, S12); o.d(lat2); o.d(lon2); o.d(S12);
     o.d(l.Latitude()); o.d(l.Longitude()); o.d(l.Azimuth()); o.d(l.EquatorialRadius()); o.d(l.Flattening()); });
 }
 
 template <class PA, PA Shared::*M> void add_poly(const std::string& pre, const std::string& cls) {
-  add(pre + ".compute", cls, 1, true, [](const Shared* S, Rng& r, Res& o, int) {
+  add(pre + ".compute", cls, 1, true, [](const Shared* S, Rng& r, Res& o, int pv) {
     const PA& p = S->*M; real per = -1, area = -2; o.i(p.Compute(r.coin(), r.coin(), per, area)); o.d(per); o.d(area);
     real la, lo; p.CurrentPoint(la, lo); o.d(la); o.d(lo); o.i(p.NumberPoints()); o.b(p.Polyline());
     o.d(p.EquatorialRadius()); o.d(p.Flattening()); });
-  add(pre + ".testpoint", cls, 1, true, [](const Shared* S, Rng& r, Res& o, int) {
+  add(pre + ".testpoint", cls, 1, true, [](const Shared* S, Rng& r, Res& o, int pv) {
     const PA& p = S->*M; real per = -1, area = -2; o.i(p.TestPoint(glat(r), glon(r), r.coin(), r.coin(), per, area)); o.d(per); o.d(area); });
-  add(pre + ".testedge", cls, 1, true, [](const Shared* S, Rng& r, Res& o, int) {
+  add(pre + ".testedge", cls, 1, true, [](const Shared* S, Rng& r, Res& o, int pv) {
     const PA& p = S->*M; real per = -1, area = -2; o.i(p.TestEdge(gazi(r), gdist(r, p.EquatorialRadius()) / 4, r.coin(), r.coin(), per, area)); o.d(per); o.d(area); });
 }
 
@@ -172,37 +172,50 @@ inline void register_a() {
   add_poly<PolygonArea, &Shared::pline>("polyline", "PolygonArea");
   add_poly<PolygonAreaExact, &Shared::polye>("polygonexact", "PolygonAreaExact");
   add_poly<PolygonAreaRhumb, &Shared::polyr>("polygonrhumb", "PolygonAreaRhumb");
+  // other construction paths
+  add_line<GeodesicLine, &Shared::glC>("gline-ctor", "GeodesicLine(constructor)");
+  add_line<GeodesicLine, &Shared::glI>("gline-inverseline", "GeodesicLine(InverseLine)");
+  add_line<GeodesicLine, &Shared::glD>("gline-directline", "GeodesicLine(DirectLine)");
+  add_line<GeodesicLine, &Shared::glxI>("glinex-inverseline", "GeodesicLine(exact=true,InverseLine)");
+  add_line<GeodesicLineExact, &Shared::gleC>("glineexact-ctor", "GeodesicLineExact(constructor)");
+  add_line<GeodesicLineExact, &Shared::gleI>("glineexact-inverseline", "GeodesicLineExact(InverseLine)");
+  add_poly<PolygonArea, &Shared::polyx>("polygonx", "PolygonArea(Geodesic exact=true)");
+  add_poly<PolygonAreaRhumb, &Shared::polyrx>("polygonrhumbx", "PolygonAreaRhumb(exact)");
 
-  add("gnomonic.forward", "Gnomonic", 1, true, [](const Shared* S, Rng& r, Res& o, int) {
-    real x, y, azi, rk; S->gn.Forward(glat(r), glon(r), glat(r), glon(r), x, y, azi, rk); o.d(x); o.d(y); o.d(azi); o.d(rk); });
-  add("gnomonic.reverse", "Gnomonic", 1, true, [](const Shared* S, Rng& r, Res& o, int) {
-    real lat, lon, azi, rk; real a = S->P.a; S->gn.Reverse(glat(r), glon(r), a * r.uniform(-3, 3), a * r.uniform(-3, 3), lat, lon, azi, rk);
-    o.d(lat); o.d(lon); o.d(azi); o.d(rk); o.d(S->gn.EquatorialRadius()); o.d(S->gn.Flattening()); });
-  add("azeq.forward", "AzimuthalEquidistant", 1, true, [](const Shared* S, Rng& r, Res& o, int) {
-    real x, y, azi, rk; S->ae.Forward(glat(r), glon(r), glat(r), glon(r), x, y, azi, rk); o.d(x); o.d(y); o.d(azi); o.d(rk); });
-  add("azeq.reverse", "AzimuthalEquidistant", 1, true, [](const Shared* S, Rng& r, Res& o, int) {
-    real lat, lon, azi, rk; real a = S->P.a; S->ae.Reverse(glat(r), glon(r), a * r.uniform(-3, 3), a * r.uniform(-3, 3), lat, lon, azi, rk);
-    o.d(lat); o.d(lon); o.d(azi); o.d(rk); o.d(S->ae.EquatorialRadius()); o.d(S->ae.Flattening()); });
-  add("cassini.forward", "CassiniSoldner", 1, true, [](const Shared* S, Rng& r, Res& o, int) {
-    real x, y, azi, rk; S->cs.Forward(glat(r), glon(r), x, y, azi, rk); o.d(x); o.d(y); o.d(azi); o.d(rk);
-    S->cs.Forward(glat(r), glon(r), x, y); o.d(x); o.d(y); });
-  add("cassini.reverse", "CassiniSoldner", 1, true, [](const Shared* S, Rng& r, Res& o, int) {
-    real lat, lon, azi, rk; real a = S->P.a; S->cs.Reverse(a * r.uniform(-1.5, 1.5), a * r.uniform(-3, 3), lat, lon, azi, rk);
-    o.d(lat); o.d(lon); o.d(azi); o.d(rk); o.d(S->cs.LatitudeOrigin()); o.d(S->cs.LongitudeOrigin()); o.b(S->cs.Init()); });
+  add("gnomonic.forward", "Gnomonic", 1, true, [](const Shared* S, Rng& r, Res& o, int pv) {
+    real x, y, azi, rk; VAR(gnv).Forward(glat(r), glon(r), glat(r), glon(r), x, y, azi, rk); o.d(x); o.d(y); o.d(azi); o.d(rk); });
+  add("gnomonic.reverse", "Gnomonic", 1, true, [](const Shared* S, Rng& r, Res& o, int pv) {
+    real lat, lon, azi, rk; real a = S->P.a; VAR(gnv).Reverse(glat(r), glon(r), a * r.uniform(-3, 3), a * r.uniform(-3, 3), lat, lon, azi, rk);
+    o.d(lat); o.d(lon); o.d(azi); o.d(rk); o.d(VAR(gnv).EquatorialRadius()); o.d(VAR(gnv).Flattening()); });
+  add("azeq.forward", "AzimuthalEquidistant", 1, true, [](const Shared* S, Rng& r, Res& o, int pv) {
+    real x, y, azi, rk; VAR(aev).Forward(glat(r), glon(r), glat(r), glon(r), x, y, azi, rk); o.d(x); o.d(y); o.d(azi); o.d(rk); });
+  add("azeq.reverse", "AzimuthalEquidistant", 1, true, [](const Shared* S, Rng& r, Res& o, int pv) {
+    real lat, lon, azi, rk; real a = S->P.a; VAR(aev).Reverse(glat(r), glon(r), a * r.uniform(-3, 3), a * r.uniform(-3, 3), lat, lon, azi, rk);
+    o.d(lat); o.d(lon); o.d(azi); o.d(rk); o.d(VAR(aev).EquatorialRadius()); o.d(VAR(aev).Flattening()); });
+  add("cassini.forward", "CassiniSoldner", 1, true, [](const Shared* S, Rng& r, Res& o, int pv) {
+    real x, y, azi, rk; VAR(csv).Forward(glat(r), glon(r), x, y, azi, rk); o.d(x); o.d(y); o.d(azi); o.d(rk);
+    VAR(csv).Forward(glat(r), glon(r), x, y); o.d(x); o.d(y); });
+  add("cassini.reverse", "CassiniSoldner", 1, true, [](const Shared* S, Rng& r, Res& o, int pv) {
+    real lat, lon, azi, rk; real a = S->P.a; VAR(csv).Reverse(a * r.uniform(-1.5, 1.5), a * r.uniform(-3, 3), lat, lon, azi, rk);
+    o.d(lat); o.d(lon); o.d(azi); o.d(rk); o.d(VAR(csv).LatitudeOrigin()); o.d(VAR(csv).LongitudeOrigin()); o.b(VAR(csv).Init()); });
+
+  add_variant("gnomonic.", "gnomonicx.", "Gnomonic(Geodesic exact=true)", 1);
+  add_variant("azeq.", "azeqx.", "AzimuthalEquidistant(Geodesic exact=true)", 1);
+  add_variant("cassini.", "cassini-reset.", "CassiniSoldner(default+Reset)", 1);
 
   // Intersect: every const entry point; the counters (NumInverse ...) are excluded by the property
-  add("intersect.closest", "Intersect", 1, true, [](const Shared* S, Rng& r, Res& o, int) {
+  add("intersect.closest", "Intersect", 1, true, [](const Shared* S, Rng& r, Res& o, int pv) {
     int c = -9; auto p = S->inter.Closest(r.uniform(-80, 80), glon(r), gazi(r), r.uniform(-80, 80), glon(r), gazi(r), Intersect::Point(0, 0), &c);
     o.d(p.first); o.d(p.second); o.i(c); });
-  add("intersect.closest.lines", "Intersect", 1, true, [](const Shared* S, Rng& r, Res& o, int) {
+  add("intersect.closest.lines", "Intersect", 1, true, [](const Shared* S, Rng& r, Res& o, int pv) {
     int c = -9; real d = S->P.a; auto p = S->inter.Closest(S->glX, S->glY, Intersect::Point(d * r.uniform(-2, 2), d * r.uniform(-2, 2)), &c);
     o.d(p.first); o.d(p.second); o.i(c); });
-  add("intersect.segment", "Intersect", 1, true, [](const Shared* S, Rng& r, Res& o, int) {
+  add("intersect.segment", "Intersect", 1, true, [](const Shared* S, Rng& r, Res& o, int pv) {
     int seg = -9, c = -9; auto p = S->inter.Segment(r.uniform(-80, 80), glon(r), r.uniform(-80, 80), glon(r), r.uniform(-80, 80), glon(r), r.uniform(-80, 80), glon(r), seg, &c);
     o.d(p.first); o.d(p.second); o.i(seg); o.i(c); });
-  add("intersect.next", "Intersect", 1, true, [](const Shared* S, Rng& r, Res& o, int) {
+  add("intersect.next", "Intersect", 1, true, [](const Shared* S, Rng& r, Res& o, int pv) {
     int c = -9; auto p = S->inter.Next(r.uniform(-80, 80), glon(r), gazi(r), gazi(r), &c); o.d(p.first); o.d(p.second); o.i(c); });
-  add("intersect.all", "Intersect", 0.5, true, [](const Shared* S, Rng& r, Res& o, int) {
+  add("intersect.all", "Intersect", 0.5, true, [](const Shared* S, Rng& r, Res& o, int pv) {
     std::vector<int> c; real d = S->P.a * r.uniform(0.5, 4);
     auto v = r.coin() ? S->inter.All(r.uniform(-80, 80), glon(r), gazi(r), r.uniform(-80, 80), glon(r), gazi(r), d, c)
                       : S->inter.All(S->glX, S->glY, d, c, Intersect::Point(0, 0));
